@@ -1,6 +1,9 @@
 package main
 
 import (
+	"sort"
+	"reflect"
+	"fmt"
 	"math"
 	"math/rand"
 
@@ -74,12 +77,21 @@ func inRingsFloat(q geom.Point, rings []geom.Path) bool {
 	return in
 }
 
+func c01Canon(rings []geom.Path) []string {
+	out := make([]string, len(rings))
+	for i, r := range rings {
+		out[i] = fmt.Sprint(r)
+	}
+	sort.Strings(out)
+	return out
+}
+
 func runC01(c map[string]interface{}) []Event {
 	scale := 2.0
 	if str(c["kind"]) == "f2" || str(c["kind"]) == "f2r" {
 		scale = 4.0
 	}
-	e := Event{"ev": "op", "rings": []interface{}{}, "integral": true, "pts": []interface{}{}, "inres": []interface{}{}}
+	e := Event{"ev": "op", "again": false, "rings": []interface{}{}, "integral": true, "pts": []interface{}{}, "inres": []interface{}{}}
 	e["out"] = safely(func() {
 		A := buildOperand(c["A"], str(c["ta"]), scale)
 		B := buildOperand(c["B"], str(c["tb"]), scale)
@@ -90,6 +102,20 @@ func runC01(c map[string]interface{}) []Event {
 				rings = append(rings, p...)
 			}
 		}
+		// the same two values are then used for all four operations and for the requested one once more: every call is
+		// an instance of the property, so the last result must describe the same region as the first (compared as the
+		// multiset of rings: the clipper is deterministic)
+		first := c01Canon(rings)
+		for _, o := range []string{"Intersection", "Union", "Difference", "XOr"} {
+			applyOp(A, B, o)
+		}
+		var rings2 []geom.Path
+		if r2 := applyOp(A, B, str(c["op"])); !isNilPolygonal(r2) {
+			for _, p := range r2.Polygons() {
+				rings2 = append(rings2, p...)
+			}
+		}
+		e["again"] = reflect.DeepEqual(first, c01Canon(rings2))
 		if scale == 2 {
 			out := make([]interface{}, len(rings))
 			for i, ring := range rings {
